@@ -62,6 +62,7 @@ type world struct {
 	invs   []*inv         // in invocation order
 	byRid  map[int]*inv   // rid -> invocation
 	sent   map[string]int // request payload -> rid
+	filler map[string]p9p.Message // request payload -> the result an auto-completing handler returns at once
 	stops  int
 	ret    bool
 	retErr error
@@ -98,6 +99,14 @@ func payloadOf(msg p9p.Message) []byte {
 func (h gateHandler) Handle(ctx context.Context, msg p9p.Message) (p9p.Message, error) {
 	w := h.w
 	pl := payloadOf(msg)
+	w.mu.Lock()
+	if res, ok := w.filler[string(pl)]; ok {
+		// a filler request of a (bulk ...) step: answered immediately, not held, context not tracked
+		w.items = append(w.items, item{kind: itDisp, rid: w.sent[string(pl)], payload: pl})
+		w.mu.Unlock()
+		return res, nil
+	}
+	w.mu.Unlock()
 	iv := &inv{ctx: ctx, msg: msg, payload: pl, gate: make(chan hresult, 1), rid: -1}
 	w.mu.Lock()
 	if rid, ok := w.sent[string(pl)]; ok {
